@@ -298,6 +298,14 @@ func finish(verif, prop, tier string, seed int, t0 time.Time, p *Program, units 
 	discharged := 0
 	var samples []map[string]interface{}
 	var slowest []*Oblig
+	var counted []*Oblig
+	for _, o := range all {
+		if o.KnownInside == nil {
+			counted = append(counted, o)
+		}
+	}
+	nKnown := len(all) - len(counted)
+	all = counted
 	for _, o := range all {
 		byKind[kindGroup(o.Kind)]++
 		if o.ok() {
@@ -376,6 +384,7 @@ func finish(verif, prop, tier string, seed int, t0 time.Time, p *Program, units 
 		"solver_seconds":           round3(solverSecs),
 		"samples":                  samples,
 		"known_findings_reported":  knownLines,
+		"known_finding_instances":  nKnown,
 		"clauses_not_covered":      meta.NotCovered,
 		"bounded_stand_ins":        meta.Bounded,
 		"unit_errors":              unitErrs,
